@@ -4,6 +4,7 @@ import (
 	"fmt"
 	"go/types"
 	"math"
+	"strconv"
 	"strings"
 	"unicode"
 
@@ -159,6 +160,26 @@ func init() {
 		"unicode.IsPunct":   extUnicodeClass("IsPunct", unicode.IsPunct),
 		"unicode.ToLower":   extUnicodeMap("ToLower", unicode.ToLower),
 		"unicode.ToUpper":   extUnicodeMap("ToUpper", unicode.ToUpper),
+
+		// float formatting: exact for concrete operands (the library code shifts float bits)
+		"strconv.FormatFloat": func(fr *frame, a []value) value {
+			f, ok := a[0].(float64)
+			if !ok {
+				fr.i.abort(abortUnsupported, "strconv.FormatFloat of a symbolic float")
+			}
+			return strconv.FormatFloat(f, byte(asInt64(a[1])), int(asInt64(a[2])), int(asInt64(a[3])))
+		},
+		"strconv.AppendFloat": func(fr *frame, a []value) value {
+			f, ok := a[1].(float64)
+			if !ok {
+				fr.i.abort(abortUnsupported, "strconv.AppendFloat of a symbolic float")
+			}
+			out := append([]value(nil), a[0].([]value)...)
+			for _, c := range []byte(strconv.FormatFloat(f, byte(asInt64(a[2])), int(asInt64(a[3])), int(asInt64(a[4])))) {
+				out = append(out, c)
+			}
+			return out
+		},
 
 		"runtime.GOMAXPROCS": func(fr *frame, a []value) value { return 1 },
 		"runtime.NumCPU":     func(fr *frame, a []value) value { return 1 },
